@@ -153,17 +153,77 @@ Definition same_tasks (a b : result gobs) : bool :=
   | _, _ => false
   end.
 
+Fixpoint kw_upd (k : string) (v : aval) (d : list (string * aval)) : list (string * aval) :=
+  match d with
+  | [] => []
+  | (k', v') :: d' => if String.eqb k k' then (k, v) :: d' else (k', v') :: kw_upd k v d'
+  end.
+
+(** a single token that is exactly the flag of an optional-value core option
+    (--list / -l, --help / -h) given WITHOUT a value *)
+Definition bare_optional (opt : list string) : option argspec :=
+  match opt with
+  | [f] => match core_arg f with
+           | Some a => if a_optional a && takes_value a then Some a else None
+           | None => None
+           end
+  | _ => None
+  end.
+
+(** what follows position [j]: nothing, or a token that is a flag of the active task *)
+Definition followed_by_own_flag (groups : list (list string)) (j : nat) : bool :=
+  match skipn j groups with
+  | [] => true
+  | (t :: _) :: _ =>
+      match active_task groups j None with
+      | Some c => match arg_of_flag c t with Some _ => true | None =>
+                  match arg_of_inverse c t with Some _ => true | None => false end end
+      | None => false
+      end
+  | [] :: _ => false
+  end.
+
 Definition s3_placement (groups : list (list string)) (opt : list string) (j : nat)
            (flags : list string) (base front placed : result gobs) : bool :=
   match opt with
   | [] => true
   | _ =>
-      if shadowed groups j flags then true
+      if shadowed groups j flags then
+        (* "unless that task declares a flag of the same name (which then receives it)":
+           the core values are those of the line without the option *)
+        match flags, base, placed with
+        | [_], Ok _, Ok _ => same_core placed base
+        | _, _, _ => true
+        end
       else
-        (* the option itself must be acceptable where it is documented (front) *)
-        match front, base with
-        | Ok _, Ok _ => same_core placed front && same_tasks placed base
-        | _, _ => true
+        match bare_optional opt with
+        | Some a =>
+            (* an optional-value option without value has no meaningful "front" spelling
+               (in front, the next word would be its value); what is documented: inside a
+               task's argument list --help means help for that task, a bare optional option
+               means True.  Judged when the next token cannot be mistaken for its value. *)
+            match base, placed, active_task groups j None with
+            | Ok b, Ok pl, Some c =>
+                if String.eqb (arg_name a) "help" then
+                  match cx_name c with
+                  | Some n => kwargs_eqb (g_core pl) (kw_upd (main_name a) (AStr n) (g_core b))
+                              && list_eqb octx_eqb (g_tasks pl) (g_tasks b)
+                  | None => true
+                  end
+                else if followed_by_own_flag groups j then
+                  kwargs_eqb (g_core pl) (kw_upd (main_name a) (ABool true) (g_core b))
+                  && list_eqb octx_eqb (g_tasks pl) (g_tasks b)
+                else true
+            | Ok _, Err _, Some c =>
+                negb (String.eqb (arg_name a) "help" || followed_by_own_flag groups j)
+            | _, _, _ => true
+            end
+        | None =>
+            (* the option itself must be acceptable where it is documented (front) *)
+            match front, base with
+            | Ok _, Ok _ => same_core placed front && same_tasks placed base
+            | _, _ => true
+            end
         end
   end.
 
